@@ -21,7 +21,8 @@ Record state := {
   gpar : bool;
   rd : nat -> reader;
   loc : nat -> where_;
-  ph : uphase
+  ph : uphase;
+  reg : nat -> bool          (* registered readers (the registry the updater scans) *)
 }.
 
 Inductive choice :=
@@ -43,29 +44,30 @@ Definition step (c : choice) (s : state) : state :=
   | C_Lock r =>
       let x := rd s r in
       match pc x with
-      | R_Idle => {| gpar := gpar s; rd := upd (rd s) r {| rmem := rmem x; rbuf := rbuf x; pc := R_Loaded (gpar s); old_open := old_open x |}; loc := loc s; ph := ph s |}
-      | R_Loaded p => {| gpar := gpar s; rd := upd (rd s) r {| rmem := rmem x; rbuf := rbuf x ++ [(p, 1)]; pc := R_In p 0; old_open := old_open x |}; loc := loc s; ph := ph s |}
-      | R_In p n => {| gpar := gpar s; rd := upd (rd s) r {| rmem := rmem x; rbuf := rbuf x ++ [(p, S (S n))]; pc := R_In p (S n); old_open := old_open x |}; loc := loc s; ph := ph s |}
+      | R_Idle => {| gpar := gpar s; rd := upd (rd s) r {| rmem := rmem x; rbuf := rbuf x; pc := R_Loaded (gpar s); old_open := old_open x |}; loc := loc s; ph := ph s; reg := reg s |}
+      | R_Loaded p => {| gpar := gpar s; rd := upd (rd s) r {| rmem := rmem x; rbuf := rbuf x ++ [(p, 1)]; pc := R_In p 0; old_open := old_open x |}; loc := loc s; ph := ph s; reg := reg s |}
+      | R_In p n => {| gpar := gpar s; rd := upd (rd s) r {| rmem := rmem x; rbuf := rbuf x ++ [(p, S (S n))]; pc := R_In p (S n); old_open := old_open x |}; loc := loc s; ph := ph s; reg := reg s |}
       end
   | C_Unlock r =>
       let x := rd s r in
       match pc x with
-      | R_In p 0 => {| gpar := gpar s; rd := upd (rd s) r {| rmem := rmem x; rbuf := rbuf x ++ [(p, 0)]; pc := R_Idle; old_open := false |}; loc := loc s; ph := ph s |}
-      | R_In p (S n) => {| gpar := gpar s; rd := upd (rd s) r {| rmem := rmem x; rbuf := rbuf x ++ [(p, S n)]; pc := R_In p n; old_open := old_open x |}; loc := loc s; ph := ph s |}
+      | R_In p 0 => {| gpar := gpar s; rd := upd (rd s) r {| rmem := rmem x; rbuf := rbuf x ++ [(p, 0)]; pc := R_Idle; old_open := false |}; loc := loc s; ph := ph s; reg := reg s |}
+      | R_In p (S n) => {| gpar := gpar s; rd := upd (rd s) r {| rmem := rmem x; rbuf := rbuf x ++ [(p, S n)]; pc := R_In p n; old_open := old_open x |}; loc := loc s; ph := ph s; reg := reg s |}
       | _ => s
       end
   | C_Flush r =>
       let x := rd s r in
       match rbuf x with
       | [] => s
-      | w :: b => {| gpar := gpar s; rd := upd (rd s) r {| rmem := w; rbuf := b; pc := pc x; old_open := old_open x |}; loc := loc s; ph := ph s |}
+      | w :: b => {| gpar := gpar s; rd := upd (rd s) r {| rmem := w; rbuf := b; pc := pc x; old_open := old_open x |}; loc := loc s; ph := ph s; reg := reg s |}
       end
   | C_UNext =>
       match ph s with
       | U_Idle =>    (* synchronize_rcu starts: ghost marks the pre-existing sections *)
-          {| gpar := gpar s; rd := fun r => let x := rd s r in {| rmem := rmem x; rbuf := rbuf x; pc := pc x; old_open := in_cs x |}; loc := loc s; ph := U_Started |}
-      | U_Started => (* smp_mb_master #1 = membarrier: every reader buffer drained; registry -> input *)
-          {| gpar := gpar s; rd := fun r => flush_all (rd s r); loc := fun _ => W_input; ph := U_Scan1 |}
+          {| gpar := gpar s; rd := fun r => let x := rd s r in {| rmem := rmem x; rbuf := rbuf x; pc := pc x; old_open := in_cs x && reg s r |}; loc := loc s; ph := U_Started; reg := reg s |}
+      | U_Started => (* smp_mb_master #1 = membarrier: every reader buffer drained; registry -> input
+                        (old_open implies registered, lemma old_open_registered in GpProof.v, so the disjunct is redundant) *)
+          {| gpar := gpar s; rd := fun r => flush_all (rd s r); loc := fun r => if reg s r || old_open (rd s r) then W_input else W_qs; ph := U_Scan1; reg := reg s |}
       | U_Scan1 =>
           s   (* allowed only when input is empty: expressed by C_UFlip below through a decidable oracle *)
       | U_Scan2 => s
@@ -74,12 +76,12 @@ Definition step (c : choice) (s : state) : state :=
       let x := rd s r in
       match ph s, loc s r with
       | U_Scan1, W_input =>
-          if Nat.eqb (snd (rmem x)) 0 then {| gpar := gpar s; rd := rd s; loc := upd (loc s) r W_qs; ph := ph s |}
-          else if Bool.eqb (fst (rmem x)) (gpar s) then {| gpar := gpar s; rd := rd s; loc := upd (loc s) r W_cur; ph := ph s |}
+          if Nat.eqb (snd (rmem x)) 0 then {| gpar := gpar s; rd := rd s; loc := upd (loc s) r W_qs; ph := ph s; reg := reg s |}
+          else if Bool.eqb (fst (rmem x)) (gpar s) then {| gpar := gpar s; rd := rd s; loc := upd (loc s) r W_cur; ph := ph s; reg := reg s |}
           else s
       | U_Scan2, W_cur =>
-          if Nat.eqb (snd (rmem x)) 0 then {| gpar := gpar s; rd := rd s; loc := upd (loc s) r W_qs; ph := ph s |}
-          else if Bool.eqb (fst (rmem x)) (gpar s) then {| gpar := gpar s; rd := rd s; loc := upd (loc s) r W_qs; ph := ph s |}
+          if Nat.eqb (snd (rmem x)) 0 then {| gpar := gpar s; rd := rd s; loc := upd (loc s) r W_qs; ph := ph s; reg := reg s |}
+          else if Bool.eqb (fst (rmem x)) (gpar s) then {| gpar := gpar s; rd := rd s; loc := upd (loc s) r W_qs; ph := ph s; reg := reg s |}
           else s
       | _, _ => s
       end
@@ -89,9 +91,9 @@ Definition step (c : choice) (s : state) : state :=
    emptiness test is a premise of a relational step. *)
 Inductive ustep : state -> state -> Prop :=
 | U_flip s : ph s = U_Scan1 -> (forall r, loc s r <> W_input) ->
-    ustep s {| gpar := negb (gpar s); rd := rd s; loc := loc s; ph := U_Scan2 |}
+    ustep s {| gpar := negb (gpar s); rd := rd s; loc := loc s; ph := U_Scan2; reg := reg s |}
 | U_end s : ph s = U_Scan2 -> (forall r, loc s r <> W_cur) ->
-    ustep s {| gpar := gpar s; rd := rd s; loc := loc s; ph := U_Idle |}.
+    ustep s {| gpar := gpar s; rd := rd s; loc := loc s; ph := U_Idle; reg := reg s |}.
 
 Inductive trans : state -> state -> Prop :=
 | T_choice c s : trans s (step c s)
@@ -101,6 +103,6 @@ Inductive reach (s0 : state) : state -> Prop :=
 | R_refl : reach s0 s0
 | R_step s s' : reach s0 s -> trans s s' -> reach s0 s'.
 
-Definition init : state :=
+Definition init (isreg : nat -> bool) : state :=
   {| gpar := false; rd := fun _ => {| rmem := (false, 0); rbuf := []; pc := R_Idle; old_open := false |};
-     loc := fun _ => W_qs; ph := U_Idle |}.
+     loc := fun _ => W_qs; ph := U_Idle; reg := isreg |}.
